@@ -74,7 +74,11 @@ static int64_t vr_src_scalar (OrcProgram * p, int var, int pchoice, int *known)
 {
   OrcVariable *v = &p->vars[var];
   *known = 1;
-  if (v->vartype == ORC_VAR_TYPE_CONST) return (int64_t) v->value.i;
+  if (v->vartype == ORC_VAR_TYPE_CONST) {
+    /* the constant at its declared width (sign-extended) */
+    int sh = 64 - 8 * (v->size > 0 && v->size < 8 ? v->size : 8);
+    return sh ? (((int64_t) ((uint64_t) v->value.i << sh)) >> sh) : (int64_t) v->value.i;
+  }
   if (v->vartype == ORC_VAR_TYPE_PARAM) return vr_param_value (p, var, pchoice);
   *known = 0;
   return 0;
@@ -183,6 +187,10 @@ static void vr_arena_fill (VArena * A, const VRunCfg * c)
     front = A->sh.front[i];
     for (r = 0; r < (c->m > 0 ? c->m : 1); r++) {
       unsigned char *row = a->data + (long) r * a->stride;
+      if (row + A->sh.need[i] * sz > a->mem + a->memlen || row - front * sz < a->mem) {
+        fprintf (stderr, "HARNESS: arena overflow var %d esize %d need %ld front %ld rows %d stride %d memlen %zu n %d m %d\n", i, sz, A->sh.need[i], front, c->m, a->stride, a->memlen, c->n, c->m);
+        abort ();
+      }
       for (e = -front; e < A->sh.need[i]; e++) {
         uint64_t idx = c->vbase + (uint64_t) (e + front) + (uint64_t) r * 7919u;
         if (A->sh.isfloat[i] && A->sh.lane[i] && A->sh.lane[i] < sz) {
